@@ -53,6 +53,15 @@ def run_unit(verif, name, pid, tier, scratch):
         O.items.append({"id": ex.id, "file": ex.file, "item": ex.item, "lines": [ex.line_lo, ex.line_hi],
                         "orig_token_sha": ex.orig_hash, "rewritten_token_sha": ex.rewritten_hash,
                         "rewrites": [{"rule": r, "firings": n} for r, n in ex.rewrites]})
+    import concurrent.futures as CF
+    pool = CF.ThreadPoolExecutor(max_workers=2)
+    def _canary():
+        try:
+            Bc = U.build(udir, REPO, "canary")
+            return Bc, VR.run(Bc.text, scratch, name + "_canary", Bc, multiple_errors=2), None
+        except U.UnitError as e:
+            return None, None, e
+    fut_c = pool.submit(_canary)
     R = VR.run(B.text, scratch, name, B)
     O.cmds.append(R.cmd); O.smt_ms += R.smt_ms; O.functions = R.functions; O.verus_text = B.text
     if os.environ.get("VERIF_KEEP"):
@@ -91,8 +100,8 @@ def run_unit(verif, name, pid, tier, scratch):
                           "discharged": k not in failed_labels})
     # canaries (vacuity guard) — every run
     try:
-        Bc = U.build(udir, REPO, "canary")
-        Rc = VR.run(Bc.text, scratch, name + "_canary", Bc)
+        Bc, Rc, cerr = fut_c.result()
+        if cerr is not None: raise cerr
         O.cmds.append(Rc.cmd); O.smt_ms += Rc.smt_ms
         if Rc.tool_failure or Rc.compile_errors:
             O.undecided = "canary run failed: " + (Rc.tool_failure or Rc.compile_errors[0].message)
@@ -189,7 +198,9 @@ def run_property(verif, pid, tier, seed):
     scratch = tempfile.mkdtemp(prefix="s3s-verif.", dir=os.environ.get("VERIF_SCRATCH", "/var/tmp"))
     atexit.register(lambda: shutil.rmtree(scratch, ignore_errors=True))
     t0 = time.time()
-    outcomes = [run_unit(verif, u, pid, tier, scratch) for u in conf["units"]]
+    import concurrent.futures as CF
+    with CF.ThreadPoolExecutor(max_workers=4) as ex:
+        outcomes = list(ex.map(lambda u: run_unit(verif, u, pid, tier, scratch), conf["units"]))
     extra = {}
     extra_undecided = []
     extra_fail = []
